@@ -637,10 +637,12 @@ def main():
     verdict = C.Verdict(CID, MATCHERS)
     st = Stats()
     build_err = None
+    build_log = ""
     try:
-        C.ensure_built([AREA], VO)
+        _ok, build_log = C.ensure_built([AREA], VO)
     except C.BuildError as ex:
         build_err = ex
+    gen_msgs = [l for l in (build_log or "").splitlines() if "TRANSLATE-ERROR" in l or "GENERATOR FAILED" in l]
     if build_err is not None:
         props = {"obligations": 0, "discharged": 0, "theorems": [], "assumptions": {},
                  "cmd": "coqc props/C08.v", "log": build_err.log, "ok": False}
@@ -805,6 +807,7 @@ def main():
     if not props["ok"] and not verdict.violations:
         verdict.violation({"kind": "broken proof obligation", "theorem_file": "coq/props/C08.v",
                            "theorems": props["theorems"], "discharged": props["discharged"], "input": None,
+                           "translator": gen_msgs[:10],
                            "log_tail": (props["log"] or "")[-3000:]}, concrete=False)
     if os.environ.get("VERIF_DEBUG"):
         kinds = {}
